@@ -160,6 +160,13 @@ def child_atoms(rich: bool) -> List[Tuple[str, tuple]]:
         out.append(("coll-via-to-one", lam("all", [rel, "children"], "c", cmp_("gt", P("c", "k"), F("k")))))
         out.append(("coll-via-to-one", lam("any", [rel, "tags"], "t", cmp_("eq", P("t", "t"), S("a")))))
         out.append(("coll-via-to-one", lam("any", [rel, "minions"])))
+        # all() over a collection reached through a to-one path: vacuously true when the key is NULL
+        out.append(("coll-via-to-one", lam("all", [rel, "children"], "c", cmp_("gt", P("c", "k"), K))))
+        out.append(("coll-via-to-one", lam("all", [rel, "tags"], "t", cmp_("eq", P("t", "t"), S("a")))))
+        out.append(("coll-via-to-one", lam("all", [rel, "minions"], "m", cmp_("gt", P("m", "n"), K))))
+        out.append(("coll-via-to-one", ("not", lam("all", [rel, "children"], "c", cmp_("eq", P("c", "label"), S("a"))))))
+        out.append(("coll-via-to-one", ("or", lam("all", [rel, "owned"], "o", cmp_("gt", P("o", "k"), K)), cmp_("eq", F("k"), K))))
+        out.append(("coll-via-to-one", ("and", lam("all", [rel, "children"], "c", cmp_("gt", P("c", "k"), K)), cmp_("eq", F(rel), ("null",)))))
         if rich:
             out.append(("to-one", cmp_("le", K, P(rel, "n"))))
             out.append(("to-one", ("call", "startswith", [P(rel, "name"), S("a")])))
